@@ -6,7 +6,17 @@ A hierarchy is a JSON model
      "bases":   [[b, ...], ...]      per class (index = class number, class name C<i>): ordered, distinct; b is an int
                                      (another class of the hierarchy) or a str (an external base, see EXTERNALS)
      "members": [[k0,k1,k2,k3], ...] per class, one kind code per name of NAMES: 0 absent, 1 function, 2 attribute,
-                                     3 nested class
+                                     3 nested (member) class, 4 property, 5 staticmethod, 6 classmethod
+     -- optional (absent = none) --
+     "init":    [v, ...]             per class: -1 no `__init__`; 0 `def __init__(self): pass`;
+                                     1..4 `def __init__(self): self.<NAMES[v-1]> = 0` (an *instance* attribute)
+     "cgi":     [bool, ...]          the class defines `def __class_getitem__(cls, item): return cls` (so it and its
+                                     subclasses can be subscripted: `class B(A[int])`)
+     "sub":     [[bool, ...], ...]   parallel to "bases": the base is written subscripted, `Cj[int]`
+                                     (the target defines/inherits `__class_getitem__`, or lists the external base `Generic[T]`)
+     "nest":    [bool, ...]          class i is defined *inside* the body of the next class that is not flagged
+                                     (one level; the nested classes of a host directly precede it in the numbering, i.e.
+                                     numbering = order in which CPython finishes the class statements)
      -- kind "pkg" only --
      "mods":    [m, ...]             module number of each class (non-decreasing, so forward edges import earlier modules)
      "via":     [[form, ...], ...]   parallel to "bases": how the base is reached (see FORMS; ignored for externals)
@@ -18,40 +28,46 @@ kind "cyc": one module, bases among *all* classes (cycles, self loops, forward r
 kind "pkg": a temporary package of 1-3 modules (+ re-export modules), loaded with griffe.load; back edges (base >= i)
             make the graph cyclic, then CPython cannot import the package and only the abstract oracle is used.
 
-The oracle is CPython itself: every class statement is exec'ed (same text as given to Griffe in the one-module
-rendering) in dependency order; `__mro__` and `getattr` give the expectation.
+The oracle is CPython itself: every class statement is exec'ed in dependency order (one flat statement per class, the
+classes defined inside a host are attached to it afterwards); `__mro__` and the class `__dict__`s along it give the
+expectation. Forward-only consistent packages are additionally *really imported* from the very files Griffe loads.
 """
 
 from __future__ import annotations
 
 import abc
 import itertools
+import typing
 
 NAMES = ("ma", "mb", "mc", "md")
-KIND_NAME = {1: "function", 2: "attribute", 3: "class"}
+# Griffe's kind for each member code (a property is an attribute labelled "property" in Griffe's model)
+KIND_NAME = {1: "function", 2: "attribute", 3: "class", 4: "attribute", 5: "function", 6: "function"}
 
 # External bases: never part of the loaded tree.
 #   object / Exception      builtins (the name does not resolve in the module)
 #   abc.ABC                 dotted path into a standard-library module that is not loaded
 #   Unk0 / Unk1             names that are defined nowhere
 #   Ext0                    `from c07_notloaded import Ext0`: an alias whose target package is not loaded
-EXTERNALS = ("object", "Exception", "abc.ABC", "Unk0", "Unk1", "Ext0")
+#   Generic[T]              `from typing import Generic, TypeVar`: makes the class generic (subscriptable)
+EXTERNALS = ("object", "Exception", "abc.ABC", "Unk0", "Unk1", "Ext0", "Generic[T]")
 NOTLOADED = "c07_notloaded"
 PKG = "c07pkg"
 
-# How a class of the package is reached from the class statement that lists it as a base.
+# How a class of the package is reached from the class statement that lists it as a base
+# (for a class nested in a host the *host* is what is imported, the base is then `<host>.Cj`).
 #   d  direct name (same module only)
 #   f  from PKG.mJ import Cj as A            (absolute from-import, renamed)
 #   r  from .mJ import Cj as A               (relative from-import, renamed)
 #   m  import PKG.mJ            + PKG.mJ.Cj  (dotted path through the package)
 #   a  import PKG.mJ as M       + M.Cj
 #   p  from PKG import mJ as M  + M.Cj
-#   x  re-export chain of one hop:  r.py: from PKG.mJ import Cj as R ; here: from PKG.r import R as A
-#   y  re-export chain of two hops: rr.py: from PKG.r import R as RR ; here: from PKG.rr import RR as A
+#   x/y/z/v  re-export chains of 1/2/3/4 hops: r1.py: from PKG.mJ import Cj as R1 ; r2.py: from .r1 import R1 as R2 ; ...
+#            here: from PKG.r<last> import R<last> as A
 #   i  re-export through the package __init__: from PKG.mJ import Cj as P ; here: from PKG import P as A
 #   w  from PKG.mJ import *     + Cj         (needs resolve_aliases=True: wildcards are expanded by the loader)
-FORMS_CROSS = ("f", "r", "m", "a", "p", "x", "y", "i", "w")
+FORMS_CROSS = ("f", "r", "m", "a", "p", "x", "y", "z", "v", "i", "w")
 FORMS_SAME = ("d",)
+HOPS = {"x": 1, "y": 2, "z": 3, "v": 4}
 
 
 # ----------------------------------------------------------------------------- enumeration
@@ -107,40 +123,168 @@ class CyclicSpace:
         return out
 
 
+MEMBER_TABLE = (0, 0, 0, 0, 0, 0, 1, 1, 1, 2, 2, 2, 3, 4, 5, 6)
+
+
 def members_from_bits(bits: int, n: int) -> list[list[int]]:
-    """Deterministic member placement from an integer (2 bits per (class, name)), biased so that about
-    half of the slots are empty: code = 0,0,1,2,3 ... taken from 3-bit groups."""
-    table = (0, 0, 0, 1, 1, 2, 2, 3)
+    """Deterministic member placement from an integer, 4 bits per (class, name); 6/16 of the slots stay empty."""
     out = []
     for _ in range(n):
         row = []
         for _ in NAMES:
-            row.append(table[bits & 7])
-            bits >>= 3
+            row.append(MEMBER_TABLE[bits & 15])
+            bits >>= 4
         out.append(row)
     return out
 
 
+INIT_TABLE = (-1, -1, -1, -1, 0, 0, 9, 9)  # 9 = assigns an instance attribute (name chosen by two more bits)
+
+
+def init_from_bits(bits: int, members, bases, leaf_only: bool) -> list[int]:
+    """Deterministic `__init__` placement, 5 bits per class. An instance attribute never reuses a name the class
+    defines at class level. leaf_only: instance attributes only in classes nobody derives from."""
+    derived_from = {b for bs in bases for b in bs if isinstance(b, int)}
+    out = []
+    for i, row in enumerate(members):
+        v = INIT_TABLE[bits & 7]
+        name = (bits >> 3) & 3
+        bits >>= 5
+        if v == 9:
+            v = 0 if (row[name] or (leaf_only and i in derived_from)) else name + 1
+        out.append(v)
+    return out
+
+
+# ----------------------------------------------------------------------------- model accessors
+def init_of(case, i: int) -> int:
+    v = case.get("init")
+    return v[i] if v else -1
+
+
+def cgi_of(case, i: int) -> bool:
+    v = case.get("cgi")
+    return bool(v[i]) if v else False
+
+
+def sub_of(case, i: int, k: int) -> bool:
+    v = case.get("sub")
+    return bool(v[i][k]) if v else False
+
+
+def hosts(case) -> list:
+    """host[i] = index of the class whose body defines class i, or None."""
+    nest = case.get("nest")
+    n = len(case["bases"])
+    out: list = [None] * n
+    if not nest:
+        return out
+    pending: list[int] = []
+    for i in range(n):
+        if nest[i] and i < n - 1:
+            pending.append(i)
+        else:
+            for j in pending:
+                out[j] = i
+            pending = []
+    return out
+
+
+def hosted_in(case, h: int) -> list[int]:
+    return [j for j, x in enumerate(hosts(case)) if x == h]
+
+
+def class_level_names(case, i: int) -> list[str]:
+    """Names in the class's own `__dict__` (what CPython's lookup can find there)."""
+    out = [n for n, k in zip(NAMES, case["members"][i]) if k]
+    if init_of(case, i) >= 0:
+        out.append("__init__")
+    if cgi_of(case, i):
+        out.append("__class_getitem__")
+    out.extend(f"C{j}" for j in hosted_in(case, i))
+    return out
+
+
+def instance_attr(case, i: int) -> str | None:
+    v = init_of(case, i)
+    return NAMES[v - 1] if v >= 1 else None
+
+
+def declared_names(case, i: int) -> list[str]:
+    """Everything Griffe lists as a declared member of the class."""
+    out = class_level_names(case, i)
+    ia = instance_attr(case, i)
+    if ia:
+        out.append(ia)
+    return out
+
+
+def universe(case) -> list[str]:
+    n = len(case["bases"])
+    out = list(NAMES)
+    if any(init_of(case, i) >= 0 for i in range(n)):
+        out.append("__init__")
+    if any(cgi_of(case, i) for i in range(n)):
+        out.append("__class_getitem__")
+    out.extend(f"C{j}" for j, h in enumerate(hosts(case)) if h is not None)
+    return out
+
+
+def member_code(case, definer: int, name: str) -> int:
+    if name in NAMES:
+        return case["members"][definer][NAMES.index(name)]
+    if name in ("__init__", "__class_getitem__"):
+        return 1
+    return 3  # a class defined in the body
+
+
 # ----------------------------------------------------------------------------- rendering
-def class_body(i: int, members_i) -> list[str]:
+def class_body(case, i: int, indent: str = "    ") -> list[str]:
+    """Body lines of class i without the classes nested in it."""
     lines = []
-    for name, k in zip(NAMES, members_i):
+    for name, k in zip(NAMES, case["members"][i]):
         if k == 1:
-            lines.append(f"    def {name}(self): ...")
+            lines.append(f"{indent}def {name}(self): ...")
         elif k == 2:
-            lines.append(f'    {name} = "C{i}"')
+            lines.append(f'{indent}{name} = "C{i}"')
         elif k == 3:
-            lines.append(f"    class {name}: ...")
-    return lines or ["    pass"]
+            lines.append(f"{indent}class {name}: ...")
+        elif k == 4:
+            lines += [f"{indent}@property", f"{indent}def {name}(self): return 0"]
+        elif k == 5:
+            lines += [f"{indent}@staticmethod", f"{indent}def {name}(): ..."]
+        elif k == 6:
+            lines += [f"{indent}@classmethod", f"{indent}def {name}(cls): ..."]
+    if cgi_of(case, i):
+        lines.append(f"{indent}def __class_getitem__(cls, item): return cls")
+    v = init_of(case, i)
+    if v == 0:
+        lines.append(f"{indent}def __init__(self): pass")
+    elif v >= 1:
+        lines += [f"{indent}def __init__(self):", f"{indent}    self.{NAMES[v - 1]} = 0"]
+    return lines
 
 
-def class_stmt(i: int, base_exprs, members_i) -> str:
+def flat_stmt(case, i: int, base_exprs) -> str:
+    """`class Ci(...)` with its own members only (oracle / one-module rendering without nesting)."""
     head = f"class C{i}({', '.join(base_exprs)}):" if base_exprs else f"class C{i}:"
-    return "\n".join([head, *class_body(i, members_i)]) + "\n"
+    return "\n".join([head, *(class_body(case, i) or ["    pass"])]) + "\n"
 
 
 def direct_expr(b) -> str:
     return f"C{b}" if isinstance(b, int) else b
+
+
+def flat_base_exprs(case, i: int, with_externals: bool = True) -> list[str]:
+    out = []
+    subscript_ok = with_externals or any(case.get("cgi") or ())
+    for k, b in enumerate(case["bases"][i]):
+        if isinstance(b, str):
+            if with_externals:
+                out.append(b)
+        else:
+            out.append(f"C{b}[int]" if subscript_ok and sub_of(case, i, k) else f"C{b}")
+    return out
 
 
 def externals_used(bases) -> set[str]:
@@ -153,87 +297,110 @@ def external_prelude(used) -> list[str]:
         lines.append("import abc")
     if "Ext0" in used:
         lines.append(f"from {NOTLOADED} import Ext0")
+    if "Generic[T]" in used:
+        lines += ["from typing import Generic, TypeVar", 'T = TypeVar("T")']
     return lines
 
 
 def render_one(case) -> str:
-    """One module `m` holding every class, in index order, bases by direct name."""
-    bases, members = case["bases"], case["members"]
+    """One module `m` holding every class, in index order, bases by direct name (kinds "one" and "cyc": no nesting)."""
+    bases = case["bases"]
     parts = external_prelude(externals_used(bases))
-    for i, bs in enumerate(bases):
-        parts.append(class_stmt(i, [direct_expr(b) for b in bs], members[i]))
+    for i in range(len(bases)):
+        parts.append(flat_stmt(case, i, flat_base_exprs(case, i)))
     return "\n".join(parts) + "\n"
 
 
 def class_path(case, i: int) -> str:
+    h = hosts(case)[i]
+    local = f"C{i}" if h is None else f"C{h}.C{i}"
     if case["kind"] == "pkg":
-        return f"{PKG}.m{case['mods'][i]}.C{i}"
-    return f"m.C{i}"
+        return f"{PKG}.m{case['mods'][i]}.{local}"
+    return f"m.{local}"
 
 
 def render_pkg(case) -> dict[str, str]:
     """Files (relative path -> text) of the package."""
-    bases, members, mods, via = case["bases"], case["members"], case["mods"], case["via"]
+    bases, mods, via = case["bases"], case["mods"], case["via"]
+    host = hosts(case)
     nmods = max(mods) + 1
     body: dict[int, list[str]] = {m: [] for m in range(nmods)}
     init_lines: list[tuple[int, str]] = []
     files: dict[str, str] = {}
-    used = externals_used(bases)
     for m in range(nmods):
         mod_used = {b for i, bs in enumerate(bases) if mods[i] == m for b in bs if isinstance(b, str)}
         body[m].extend(external_prelude(mod_used))
-    for i, bs in enumerate(bases):
+
+    def base_exprs(i: int, imports: list[str]) -> list[str]:
         m = mods[i]
         exprs = []
-        for k, b in enumerate(bs):
+        for k, b in enumerate(bases[i]):
             if isinstance(b, str):
                 exprs.append(b)
                 continue
             form = via[i][k]
+            hb = host[b]
+            top = b if hb is None else hb  # the module-level class that is imported
+            tail = "" if hb is None else f".C{b}"  # path from it to the base
             src = f"{PKG}.m{mods[b]}"
             alias = f"A{i}_{k}"
             if form == "d":
-                exprs.append(f"C{b}")
+                # same module: a sibling (same host) is a bare name in the host's body, anything else is reached from module level
+                expr = f"C{b}" if (hb is None or hb == host[i]) else f"C{hb}.C{b}"
             elif form == "f":
-                body[m].append(f"from {src} import C{b} as {alias}")
-                exprs.append(alias)
+                imports.append(f"from {src} import C{top} as {alias}")
+                expr = alias + tail
             elif form == "r":
-                body[m].append(f"from .m{mods[b]} import C{b} as {alias}")
-                exprs.append(alias)
+                imports.append(f"from .m{mods[b]} import C{top} as {alias}")
+                expr = alias + tail
             elif form == "m":
-                body[m].append(f"import {src}")
-                exprs.append(f"{src}.C{b}")
+                imports.append(f"import {src}")
+                expr = f"{src}.C{top}{tail}"
             elif form == "a":
-                body[m].append(f"import {src} as M{i}_{k}")
-                exprs.append(f"M{i}_{k}.C{b}")
+                imports.append(f"import {src} as M{i}_{k}")
+                expr = f"M{i}_{k}.C{top}{tail}"
             elif form == "p":
-                body[m].append(f"from {PKG} import m{mods[b]} as M{i}_{k}")
-                exprs.append(f"M{i}_{k}.C{b}")
-            elif form == "x":
-                files[f"{PKG}/r{i}_{k}.py"] = f"from {src} import C{b} as R{i}_{k}\n"
-                body[m].append(f"from {PKG}.r{i}_{k} import R{i}_{k} as {alias}")
-                exprs.append(alias)
-            elif form == "y":
-                files[f"{PKG}/r{i}_{k}.py"] = f"from {src} import C{b} as R{i}_{k}\n"
-                files[f"{PKG}/rr{i}_{k}.py"] = f"from .r{i}_{k} import R{i}_{k} as RR{i}_{k}\n"
-                body[m].append(f"from {PKG}.rr{i}_{k} import RR{i}_{k} as {alias}")
-                exprs.append(alias)
+                imports.append(f"from {PKG} import m{mods[b]} as M{i}_{k}")
+                expr = f"M{i}_{k}.C{top}{tail}"
+            elif form in HOPS:
+                prev_mod, prev_name = src, f"C{top}"
+                for hop in range(1, HOPS[form] + 1):
+                    name = f"R{hop}_{i}_{k}"
+                    files[f"{PKG}/r{hop}_{i}_{k}.py"] = f"from {prev_mod} import {prev_name} as {name}\n"
+                    prev_mod, prev_name = f"{PKG}.r{hop}_{i}_{k}", name
+                imports.append(f"from {prev_mod} import {prev_name} as {alias}")
+                expr = alias + tail
             elif form == "i":
-                init_lines.append((b, f"from {src} import C{b} as P{i}_{k}"))
-                body[m].append(f"from {PKG} import P{i}_{k} as {alias}")
-                exprs.append(alias)
+                init_lines.append((top, f"from {src} import C{top} as P{i}_{k}"))
+                imports.append(f"from {PKG} import P{i}_{k} as {alias}")
+                expr = alias + tail
             elif form == "w":
-                body[m].append(f"from {src} import *")
-                exprs.append(f"C{b}")
+                imports.append(f"from {src} import *")
+                expr = f"C{top}{tail}"
             else:  # pragma: no cover
                 raise ValueError(form)
-        body[m].append(class_stmt(i, exprs, members[i]))
+            exprs.append(expr + "[int]" if sub_of(case, i, k) else expr)
+        return exprs
+
+    for i in range(len(bases)):
+        if host[i] is not None:
+            continue
+        imports: list[str] = []
+        head_exprs = base_exprs(i, imports)
+        lines = [f"class C{i}({', '.join(head_exprs)}):" if head_exprs else f"class C{i}:"]
+        inner = class_body(case, i)
+        for j in hosted_in(case, i):
+            exprs = base_exprs(j, imports)
+            inner.append(f"    class C{j}({', '.join(exprs)}):" if exprs else f"    class C{j}:")
+            inner.extend(class_body(case, j, indent="        ") or ["        pass"])
+        lines.extend(inner or ["    pass"])
+        body[mods[i]].extend(imports)
+        body[mods[i]].append("\n".join(lines) + "\n")
     # package __init__: re-exports ordered by source class, so that CPython has executed every module a
     # later module needs before that later module is imported by a later line.
     files[f"{PKG}/__init__.py"] = "\n".join(line for _, line in sorted(init_lines)) + "\n"
     for m in range(nmods):
         files[f"{PKG}/m{m}.py"] = "\n".join(body[m]) + "\n"
-    del used
     return files
 
 
@@ -242,8 +409,7 @@ def int_bases(bs) -> list[int]:
     return [b for b in bs if isinstance(b, int)]
 
 
-def reaches_cycle(bases) -> list[bool]:
-    """For each class: does its ancestor graph (itself included) contain a cycle?"""
+def ancestors(bases) -> list[set[int]]:
     n = len(bases)
     reach = [set(int_bases(bases[i])) for i in range(n)]
     changed = True
@@ -256,6 +422,13 @@ def reaches_cycle(bases) -> list[bool]:
             if new != reach[i]:
                 reach[i] = new
                 changed = True
+    return reach
+
+
+def reaches_cycle(bases) -> list[bool]:
+    """For each class: does its ancestor graph (itself included) contain a cycle?"""
+    n = len(bases)
+    reach = ancestors(bases)
     on_cycle = [i in reach[i] for i in range(n)]
     return [on_cycle[i] or any(on_cycle[j] for j in reach[i]) for i in range(n)]
 
@@ -287,29 +460,31 @@ def topo_order(bases, cyclic) -> list[int]:
 ERR_CYCLE = "cycle"
 ERR_MRO = "inconsistent"
 ERR_ANCESTOR = "ancestor-uncomputable"
+EXTERNAL_DEFINER = -1
 
 
 def _oracle_namespace() -> dict:
-    ns: dict = {"__name__": "m", "abc": abc}
+    ns: dict = {"__name__": "m", "abc": abc, "Generic": typing.Generic, "T": typing.TypeVar("T")}
     for name in ("Unk0", "Unk1", "Ext0"):
         ns[name] = type(name, (), {"__module__": NOTLOADED})
     return ns
 
 
-def _build(bases, members, with_externals: bool):
+def _build(case, with_externals: bool):
     """Exec every class statement in dependency order. Returns (status, classes):
     status[i] = None (built) | ERR_*; classes[i] = the CPython class."""
+    bases = case["bases"]
     n = len(bases)
+    host = hosts(case)
     cyclic = reaches_cycle(bases)
     status: list = [ERR_CYCLE if cyclic[i] else None for i in range(n)]
     classes: dict[int, type] = {}
     ns = _oracle_namespace()
     for i in topo_order(bases, cyclic):
-        bs = bases[i] if with_externals else int_bases(bases[i])
-        if any(isinstance(b, int) and status[b] is not None for b in bs):
+        if any(status[b] is not None for b in int_bases(bases[i])):
             status[i] = ERR_ANCESTOR
             continue
-        src = class_stmt(i, [direct_expr(b) for b in bs], members[i])
+        src = flat_stmt(case, i, flat_base_exprs(case, i, with_externals))
         try:
             exec(compile(src, f"<C{i}>", "exec"), ns)  # noqa: S102
         except TypeError as exc:
@@ -319,66 +494,72 @@ def _build(bases, members, with_externals: bool):
             status[i] = ERR_MRO
             continue
         classes[i] = ns[f"C{i}"]
+    # classes defined in the body of a host are attributes of the host (found through the MRO by its subclasses)
+    for j, h in enumerate(host):
+        if h is not None and h in classes and j in classes:
+            setattr(classes[h], f"C{j}", classes[j])
+        elif h is not None and h in classes:
+            # the nested class itself cannot be created: CPython would not get to create the host either; the
+            # host's *hierarchy* is still well defined, its member Cj is a class statement that fails.
+            setattr(classes[h], f"C{j}", None)
     return status, classes
-
-
-def _index_of(cls: type) -> int | None:
-    name = cls.__name__
-    if cls.__module__ == "m" and name.startswith("C") and name[1:].isdigit() and "." not in cls.__qualname__:
-        return int(name[1:])
-    return None
-
-
-def _lookup(cls: type, name: str):
-    """What CPython's attribute lookup finds for cls.name: (definer index, kind code) or None."""
-    missing = object()
-    obj = getattr(cls, name, missing)
-    if obj is missing:
-        return None
-    if isinstance(obj, str):
-        return int(obj[1:]), 2
-    if isinstance(obj, type):
-        return int(obj.__qualname__.split(".")[0][1:]), 3
-    return int(obj.__qualname__.split(".")[0][1:]), 1
 
 
 def oracle(case) -> list[dict]:
     """Expectation per class:
 
-    {"status": "ok", "mro": [indices, nearest first, self excluded], "attrs": {name: [definer, kind]}}
+    {"status": "ok", "mro": [indices, nearest first, self excluded],
+     "attrs": {name: [definer, kind code]}     first class along __mro__ whose __dict__ has the name (loaded classes)
+     "ext_names": [name, ...]                   names first found in an external class's __dict__ (not judged)
+     "ia": {name: definer}}                     names for which a base's *instance attribute* (assigned in __init__)
+                                                comes before (or instead of) what CPython finds: Griffe's model lists
+                                                these as inherited members, CPython's lookup through the MRO does not
     {"status": "err", "why": ERR_*}
-    every entry also has "built": whether CPython (external bases included) could create the class
     {"status": "skip", "why": ...}   the external bases change what CPython computes for the loaded classes
                                      (order or consistency): Griffe cannot see them, outside the checked domain
+    every entry also has "built": whether CPython (external bases included) could create the class
     """
-    bases, members = case["bases"], case["members"]
+    bases = case["bases"]
     n = len(bases)
-    status, classes = _build(bases, members, with_externals=True)
-    has_ext = bool(externals_used(bases))
-    if has_ext:
-        status0, classes0 = _build(bases, members, with_externals=False)
+    status, classes = _build(case, with_externals=True)
+    if externals_used(bases):
+        status0, classes0 = _build(case, with_externals=False)
     else:
         status0, classes0 = status, classes
-
-    def restricted(cls: type) -> list[int]:
-        return [k for k in (_index_of(c) for c in cls.__mro__[1:]) if k is not None]
+    index = {id(c): i for i, c in classes.items()}
+    index0 = {id(c): i for i, c in classes0.items()}
+    names = universe(case)
 
     out = []
     for i in range(n):
-        with_ = ("err",) if status[i] is not None else ("ok", tuple(restricted(classes[i])))
-        without = ("err",) if status0[i] is not None else ("ok", tuple(restricted(classes0[i])))
+        with_ = ("err",) if status[i] is not None else ("ok", tuple(index[id(c)] for c in classes[i].__mro__[1:] if id(c) in index))
+        without = ("err",) if status0[i] is not None else ("ok", tuple(index0[id(c)] for c in classes0[i].__mro__[1:] if id(c) in index0))
         if with_ != without:
             out.append({"status": "skip", "why": "external-bases-change-" + ("consistency" if with_[0] != without[0] else "order"), "built": status[i] is None})
             continue
         if status[i] is not None:
             out.append({"status": "err", "why": status[i], "built": False})
             continue
-        attrs = {}
-        for name in NAMES:
-            found = _lookup(classes[i], name)
-            if found is not None:
-                attrs[name] = list(found)
-        out.append({"status": "ok", "mro": list(with_[1]), "attrs": attrs, "built": True})
+        attrs: dict = {}
+        ext_names: list[str] = []
+        ia: dict = {}
+        mro = classes[i].__mro__
+        for name in names:
+            for pos, c in enumerate(mro):
+                k = index.get(id(c))
+                # an instance attribute of a base seen before CPython finds anything
+                if pos and k is not None and name not in ia and instance_attr(case, k) == name:
+                    ia[name] = k
+                if name in vars(c):
+                    if k is None:
+                        ext_names.append(name)
+                    else:
+                        attrs[name] = [k, member_code(case, k, name)]
+                    break
+        # own instance attribute: the class declares the name, nothing is "inherited" under it
+        own_ia = instance_attr(case, i)
+        ia = {nm: k for nm, k in ia.items() if nm != own_ia and not (nm in attrs and attrs[nm][0] == i)}
+        out.append({"status": "ok", "mro": list(with_[1]), "attrs": attrs, "ext_names": ext_names, "ia": ia, "built": True})
     return out
 
 
@@ -400,6 +581,7 @@ def naive_dfs_mro(bases, i: int) -> list[int]:
 def features(case, expect) -> set[str]:
     bases, members = case["bases"], case["members"]
     out: set[str] = set()
+    host = hosts(case)
     if any(len(bs) >= 2 for bs in bases):
         out.add("multi-base")
     if any(e["status"] == "err" and e["why"] == ERR_MRO for e in expect):
@@ -412,6 +594,18 @@ def features(case, expect) -> set[str]:
         out.add("external-dependent-class(skipped)")
     if externals_used(bases):
         out.add("external-bases")
+    if any(k >= 4 for row in members for k in row):
+        out.add("decorated-members")
+    for i, bs in enumerate(bases):
+        for k, b in enumerate(bs):
+            if not isinstance(b, int):
+                continue
+            if sub_of(case, i, k):
+                out.add("subscripted-base" + ("(Generic)" if "Generic[T]" in bases[b] else "(__class_getitem__)"))
+            if host[b] is not None:
+                out.add("nested-class-base" + ("(sibling)" if host[b] == host[i] else ""))
+            if host[i] is not None:
+                out.add("class-in-class-with-bases")
     for i, e in enumerate(expect):
         if e["status"] != "ok":
             continue
@@ -420,6 +614,22 @@ def features(case, expect) -> set[str]:
             out.add("c3-differs-from-dfs")
         if len(mro) >= 2 and len(int_bases(bases[i])) >= 2:
             out.add("mro-merge>=2-lists")
+        if e["ia"]:
+            out.add("instance-attr-inherited(known-finding-shape)")
+        if instance_attr(case, i):
+            out.add("instance-attr-own")
+        own = set(declared_names(case, i))
+        for name, (definer, _) in e["attrs"].items():
+            if definer == i or name in own:
+                continue
+            if name == "__init__":
+                out.add("inherited-__init__")
+            elif name == "__class_getitem__":
+                out.add("inherited-__class_getitem__")
+            elif name not in NAMES:
+                out.add("inherited-class-defined-in-base")
+            elif member_code(case, definer, name) >= 4:
+                out.add("inherited-decorated-member")
         for k, name in enumerate(NAMES):
             definers = [j for j in mro if members[j][k]]
             if members[i][k] and definers:
